@@ -934,6 +934,7 @@ func tServices(gs ...Ing) *Term {
 
 func lvl(t *Term, l int) *Term { t.Lvl = l; return t }
 
+// (the object universes contain objects NAMED "a" and namespaces named "a": one string in both roles)
 var nsEntries = []nsname.NSName{{Namespace: "a", Name: "x"}, {Namespace: "a", Name: "y"}, {Namespace: "b", Name: "x"}, {Namespace: "a"}, {Name: "x"}}
 
 // coreAtoms: Null, All, NSName, Labels, LabelSelector, Selector (the constructors of package
@@ -956,16 +957,16 @@ func coreAtoms() []*Term {
 			out = append(out, lvl(tNSName(e, f), l))
 		}
 	}
-	// Labels: nil + all maps over 2 keys x 2 values
+	// Labels: nil + all maps over 2 keys x 2 values and the empty string as a value
 	out = append(out, lvl(tLabels(nil), 2))
-	for _, m := range labelMaps([]string{"1", "2"}) {
+	for _, m := range labelMapsE([]string{"1", "2"}) {
 		l := 3
 		switch mapStr(m) {
 		case "{k1=1}":
 			l = 0
 		case "{}":
 			l = 1
-		case "{k1=1,k2=1}", "{k1=2}":
+		case "{k1=1,k2=1}", "{k1=2}", "{k1=}":
 			l = 2
 		}
 		out = append(out, lvl(tLabels(m), l))
